@@ -169,5 +169,64 @@ def task_fock(ctx):
     ctx.assume_note("shape-bounded: batch [O-H, H-H], arbitrary symmetric densities and integral blocks; Hcore given as its upper triangle (precondition from hcore.py)")
 
 
-TASKS_QUICK = ["local_frame", "core_core", "fock"]
+def task_hcore_assembly(ctx):
+    """O4: hcore assembles  M_AA = diag(U_ss, U_pp x3) + sum_B V_B  (electron-core attraction blocks of every pair the atom
+    belongs to) and  M_AB = 1/2 (beta_mu + beta_nu) S_mu,nu  for every listed pair; nothing else is written."""
+    from contracts.es_common import ghost_es_molecule
+
+    HC = "seqm.seqm_functions.hcore"
+    fn = ctx.under_contract(HC + ":hcore", stubs=["diatom_overlap_matrix_PM6_SP", "TETCI (two_elec_two_center_int)"])
+    rec = {}
+
+    def ov_stub(ni, nj, xij, rij, za, zb, qn):
+        rec["S"] = st.symbolic((len(ni), 4, 4), "S")
+        return rec["S"]
+
+    def tetci_stub(const, idxi, idxj, ni, nj, xij, rij, Z, *a):
+        n = len(ni)
+        rec["e1b"], rec["e2a"], rec["w"] = st.symbolic((n, 4, 4), "e1b"), st.symbolic((n, 4, 4), "e2a"), st.symbolic((n, 10, 10), "w")
+        return rec["w"], rec["e1b"], rec["e2a"], st.zeros(n), st.zeros(n), None, None
+
+    def thunk():
+        mol = ghost_es_molecule(padded=True)
+        mol.const.qn_int = st.tensor([0, 1, 1, 2, 2, 2, 2, 2, 2, 2])
+        nat = len(mol.flat)
+        mol.parameters["beta"] = st.symbolic((nat, 2), "beta")
+        for k in ("F0SD", "G2SD", "rho_core"):
+            mol.parameters[k] = st.zeros(nat)
+        assume(E.and_(*[(mol.rij.a[k] <= 40).n for k in range(len(mol.pairs))]))
+        M, w, *_ = fn(mol)
+        return mol, M
+
+    ex = ctx.explore(thunk, stubs={HC + ":diatom_overlap_matrix_PM6_SP": ov_stub, HC + ":TETCI": tetci_stub}, name="hcore", max_paths=64)
+    ok = [p for p in ex.paths if p.raised is None]
+    if len(ok) != 1:
+        ctx.error("paths", "%r %s" % ([p.raised for p in ex.paths], ex.paths[0].notes.get("traceback", "")[-700:] if ex.paths else ""))
+        return
+    mol, M = ok[0].value
+    nblk = mol.nmol * mol.molsize * mol.molsize
+    want = {b: [[S(0.0) for _ in range(4)] for _ in range(4)] for b in range(nblk)}
+    par = mol.parameters
+    for a in range(len(mol.flat)):
+        b = int(mol.maskd.a[a])
+        want[b][0][0] = want[b][0][0] + par["U_ss"].a[a]
+        for o in range(1, 4):
+            want[b][o][o] = want[b][o][o] + par["U_pp"].a[a]
+    for k, (a, c) in enumerate(mol.pairs):
+        ba, bc = int(mol.maskd.a[a]), int(mol.maskd.a[c])
+        for i in range(4):
+            for j in range(4):
+                want[ba][i][j] = want[ba][i][j] + rec["e1b"].a[k, i, j]
+                want[bc][i][j] = want[bc][i][j] + rec["e2a"].a[k, i, j]
+                bi = par["beta"].a[a, 0 if i == 0 else 1]
+                bj = par["beta"].a[c, 0 if j == 0 else 1]
+                want[int(mol.mask.a[k])][i][j] = Fraction(1, 2) * (bi + bj) * rec["S"].a[k, i, j]
+    for b in range(nblk):
+        for i in range(4):
+            for j in range(4):
+                ctx.prove_eq("M[block%d,%d,%d]" % (b, i, j), M.a[b, i, j], want[b][i][j], pc=ok[0].pc, shape="batch [OHH, HH+pad]")
+    ctx.assume_note("overlap and two-centre integral kernels replaced by symbolic stubs; shape-bounded batch [OHH, HH+pad]; blocks of padding slots and of the lower triangle stay zero")
+
+
+TASKS_QUICK = ["local_frame", "core_core", "fock", "hcore_assembly"]
 TASKS_THOROUGH = TASKS_QUICK
